@@ -79,9 +79,13 @@ RADII = (1.0, 0.37)
 MSEC = 14              # interior points per multi-section round
 EDGE_TOL = 2.0e-11     # rad
 EDGE_EPS = 1.0e-7      # evaluation points this far on either side of a located edge
-# Tolerances (class B, DESIGN.md 4.1).  Measured on the unchanged tree over the thorough lattice (see bottom of file):
-#   algebraic relations between plateau states <= 3e-13; in-fan states (root-solved per point, xtol 1.5e-8) <= 4e-9;
-#   located angles vs. relation <= 3e-10 rad.  The recorded defects are 5e-4 ... 9e-2.
+# Tolerances (class B, DESIGN.md 4.1).  Measured on the unchanged tree (evidence key worst_residuals; pairs that show a
+# defect signature are listed apart), quick K=2 / thorough K=4:
+#   relations between plateau states (slip, shock, far, consistency)   <= 6e-15 / 2e-14
+#   fan interior states (root-solved per point by the solver, xtol 1.5e-8): isentrope, total enthalpy <= 1e-15
+#   located angles against the relation (head Mach angle, shock angle, slip tangency)   <= 4e-12 / 7e-12 rad
+# i.e. >= 5 orders of magnitude below the tolerances.  The recorded defects are 5.9e-4 ... 0.6; the seeded changes
+# (mutants/C19) give 6.6e-3 ... 0.4, so tolerance <= 1e-3 x the smallest seeded residual.
 TOL = 1.0e-6           # relative, state relations
 TOL_ANG = 1.0e-6       # rad, angles
 TOL_EXACT = 1.0e-12    # copied / purely algebraic quantities
@@ -102,6 +106,18 @@ def states_of(cfg):
 FIELDS = ("pressure", "density", "specific_internal_energy", "Mach", "x_velocity", "y_velocity", "speed")
 
 
+class SolverRaised(Exception):
+    """The public call raised (kept apart from exceptions of the harness itself, which must surface as harness errors)."""
+
+    def __init__(self, ex):
+        Exception.__init__(self, "%s: %s" % (type(ex).__name__, ex))
+        self.ex = ex
+
+
+class PatternUnresolved(Exception):
+    """The returned field is not a finite sequence of uniform regions, jumps and fans on the arc."""
+
+
 class Probe:
     def __init__(self, solver):
         self.s = solver
@@ -112,7 +128,11 @@ class Probe:
         """States at polar angles phis (ascending) and radius r: array (n, 7)."""
         phis = np.asarray(phis, float)
         pts = [[r * math.cos(p), r * math.sin(p)] for p in phis]
-        sol = call(self.s, pts, 1.0)
+        try:
+            sol = call(self.s, pts, 1.0)
+        except Exception as ex:
+            self.calls += 1
+            raise SolverRaised(ex)
         self.calls += 1
         F = np.array([np.asarray(sol[n], float) for n in FIELDS]).T
         self.dg.add(F)
@@ -172,7 +192,7 @@ def locate(P, C):
     while work:
         depth += 1
         if depth > 12:
-            raise RuntimeError("wave pattern could not be resolved")
+            raise PatternUnresolved()
         # refine both edges of every zone in the work list simultaneously
         br = []
         for (a, Fa, b, Fb) in work:
@@ -211,7 +231,7 @@ def locate(P, C):
             inner = np.linspace(ea[1], eb[0], N_INNER + 2)[1:-1]
             Fi = P.at(inner)
             if not np.all(np.isfinite(Fi)):
-                raise FloatingPointError("non-finite state inside a transition zone")
+                return None, None
             hidden = [k for k in range(len(inner) - 1) if same(Fi[k], Fi[k + 1])]
             if hidden:
                 k0 = hidden[0]
@@ -341,8 +361,16 @@ def run_task(task):
 
     try:
         plateaus, trans = locate(P, C)
-    except Exception as ex:
-        return refused("raised", ex)
+    except SolverRaised as sr:
+        return refused("raised", sr.ex)
+    except PatternUnresolved:
+        if gas.reference_solution(bref, tref)["kind"] == "regular":
+            violation("structure:wave-pattern", {"transitions": -1}, float("inf"), 3.0,
+                      {"note": "the returned field could not be resolved into uniform regions, jumps and fans after 12 refinement levels"})
+        res["evals"] = P.calls
+        res["sample"] = {"bottom_state": bottom, "top_state": top, "outcome": "wave pattern unresolved"}
+        res["digest"] = P.dg.hex()
+        return res
     if plateaus is None:
         return refused("nonfinite")
     # ------------------------------------------------------------------ quantifier: a regular (non-vacuum, supersonic) solution exists
@@ -421,8 +449,8 @@ def run_task(task):
     phis = [x[0] for x in pts]
     try:
         Fr = [P.at(phis, r) for r in RADII]
-    except Exception as ex:
-        return refused("raised-at-evaluation", ex)
+    except SolverRaised as sr:
+        return refused("raised-at-evaluation", sr.ex)
 
     def region_of(phi):
         """('plateau', i) or ('fan', ti) from the located edges."""
